@@ -10,7 +10,9 @@ rc = open(rcf).read().split() if os.path.exists(rcf) else []
 meta = {"property": P, "summary": notes.get("summary"), "files_changed": notes.get("files_changed"),
         "needs_to_manifest": notes.get("needs_to_manifest"), "tests_run": notes.get("tests_run"), "demo": notes.get("demo"),
         "confirmed_by_me": {"demo": "bash _deliver/%s/demo.sh in the agent's scratch worktree with / without the patch: %s" % (M, " ".join(rc)),
-                            "suite": "agent reported 613/613 passing with the patch applied alone: " + str(notes.get("tests_run"))[:300],
+                            "suite": (("confirmed here: the unedited suite run in the scratch worktree with the patch applied: " + open(f"/tmp/suite_{P}_{M}.txt").read().strip())
+                                      if os.path.exists(f"/tmp/suite_{P}_{M}.txt") else
+                                      "agent reported 613/613 passing with the patch applied alone: " + str(notes.get("tests_run"))[:300]),
                             "checks_run": "tools/mutbench.sh seeded/%s/patch.diff <Cxx> (committed /verif against a patched worktree of /repo HEAD)" % ID,
                             "caught_by": caught}}
 json.dump(meta, open(os.path.join(dst, "meta.json"), "w"), indent=1)
